@@ -5,6 +5,9 @@ func init() {
 		ID:    "C12",
 		Title: "Go data passed to a render is visible in the template with the same structure",
 		Rules: []string{
+			"R-KINDS (literal keys): the object a string literal evaluates to holds the text as written (no escaping at evaluation), so that a key is looked up under its name",
+			"R-UTF8 (names): every slice of a string in the evaluator's own functions has bounds on character boundaries (the first-letter fallback of field names)",
+			"R-SHARED-RW: no package-level variable is both written and read on the render paths (state kept between calls: a shared environment for data-less renders, a cache of converted data or parsed programs)",
 			"R-SCOPE: the data map is bound through Env.Set and nothing else writes a scope's store",
 			"R-KINDS: NativeToObject has a case for each of the 14 scalar Go types and nil, mapping to the object kind of C12 with the value as payload; reflect kinds Struct, Slice, Map, Pointer are handled; every other kind yields nil; map keys are used only after the String-kind test; struct fields only under IsExported; no reflect setter in the library; property lookup tries the exact key then the upper-cased first letter and ends in an error",
 			"R-NILOBJ: a nil conversion result is checked at every nesting level; Elem().Interface() only after IsNil()",
@@ -14,7 +17,10 @@ func init() {
 		NotDecided:  "TODO",
 		Assumptions: trustedBase,
 		Run: func(m *Model, s *Sink) {
-			m.RunScope(s, "R-SCOPE") // data is bound through Env.Set: nothing else writes a scope's store (aliases, reserved names)
+			m.RunLiteralKey(s, "R-KINDS")                                    // the name in m["..."] reaches the lookup as written
+			m.RunNameCuts(s, "R-UTF8")                                       // the lower-cased-first-letter fallback works on letters, not bytes
+			m.RunSharedWrites(s, "R-SHARED-RW", m.Roots().Render, "history") // what one render leaves behind must not reach the next (a shared environment for data-less calls, a cache of bound data, a memo of parsed strings)
+			m.RunScope(s, "R-SCOPE")                                         // data is bound through Env.Set: nothing else writes a scope's store (aliases, reserved names)
 			m.RunKinds(s, "R-KINDS")
 			r := m.Roots()
 			var objFns = m.reachableFns(r.Render)
